@@ -8,7 +8,8 @@ HERE = os.path.dirname(os.path.dirname(os.path.abspath(__file__)))
 E1 = "bounded-exhaustive enumeration of an explicit finite input space against a reference model (no sampling)"
 
 RT_NOTE = ("Trusted: CPython (ast, compile, inspect, argparse), black. Bounded by the alphabets of DESIGN.md section 4 "
-           "(<=3 parameters quick / thorough, 17 types, 9 prose forms incl. a 150-character one, the listed defaults); "
+           "(<=3 parameters, 17 types + the collision / sweep atoms, 8 prose forms incl. a 150-character one and length sweeps "
+           "of 60..260 characters, the listed defaults); "
            "oracles are acceptance sets fixed in mc/refmodel.py. Known genuine defects are matched by exact "
            "(site facts, observation) hash, see known_findings.json.")
 
@@ -23,21 +24,30 @@ def rt(design, what, space, extra=""):
                 note=RT_NOTE)
 
 
-SPACE = "S_A: all <=1-parameter IRs over the full atom alphabet x 7 return entries x kwargs x 3 summaries; S_B: all parameter sequences of length 2..3 over 13 representative atoms x 3 returns x kwargs"
+SPACE = ("S_A: all <=1-parameter IRs over the full atom alphabet (488 atoms) x 9 return entries x kwargs x 3 summaries; S_B: all "
+         "parameter sequences of length 2..3 over 13 representative atoms x 3 returns x kwargs; S_D: all ordered pairs (thorough: "
+         "triples) over 13 atoms whose values collide across types (0 / False / 0.0, 1 / True / 1.0, '', Literal types with falsy, "
+         "negative or digit-like members, a typed entry without prose and default); S_W: length sweeps of parameter prose, return "
+         "prose and a summary line (a wrap point moves across every position) and quote-edged texts")
 
 CHECKS = {
     "C01": rt("5/C01", "emit.docstring -> parse.docstring, with a spy on the style the parser chose", SPACE),
     "C02": rt("5/C02", "emit.class_ -> to_code -> ast.parse -> parse.class_", SPACE),
     "C03": rt("5/C03", "emit.function -> to_code -> ast.parse -> parse.function", SPACE,
-              " Options: function type x inline types x keyword-only x docstring indent."),
-    "C04": rt("5/C04", "emit.argparse_function -> to_code -> ast.parse -> parse.argparse_ast", SPACE + " (argparse-expressible part)"),
+              " Options: function type x inline types x keyword-only x docstring indent, plus emit_separating_tab and the call form "
+              "that takes name and type from the IR."),
+    "C04": rt("5/C04", "emit.argparse_function -> to_code -> ast.parse -> parse.argparse_ast", SPACE + " (argparse-expressible part)",
+              " Options: default text x word wrap, wrap_description, and IRs whose prose already carries the default sentence."),
     "C05": dict(level="model_checking", engine="E2", design="5/C05",
                 technique="explicit-state exploration of the conversion graph on the implementation (all chains of distinct kinds up to depth 3 / 4)",
-                text="For every IR of S_C (parameter sequences of length 0..2 over 13 atoms x 3 returns x kwargs) and each of the 7 "
+                text="For every IR of S_C (parameter sequences of length 0..2 over 16 atoms x 3 returns x kwargs) and each of the 7 "
                      "start kinds, every chain of distinct kinds up to length 3 (thorough: 4) is executed on the real "
                      "emit/parse functions with conversions memoised per (kind, text, target); each path node - a state "
                      "(kind, text) - is parsed and compared with the original description under the normalisations "
-                     "accumulated along the chain. All 42 ordered pairs and 210 length-3 chains are covered for every IR.",
+                     "accumulated along the chain. All 42 ordered pairs and 210 length-3 chains are covered for every IR; chains that "
+                     "start from hand-written source (6 interface versions x 3 kinds) and a second option set per kind (types in the "
+                     "docstring, positional parameters, default text on, wrap off) over the IRs with <=1 (thorough <=2) parameters "
+                     "are explored the same way.",
                 note=RT_NOTE + " There is no separate model: every transition is an execution of the implementation."),
     "C06": rt("5/C06", "emit.class_ / emit.function / emit.argparse_function, then compile, unparse/re-parse, emit.file with and "
                        "without black, exec, inspect.signature, class __dict__/__annotations__, a real ArgumentParser", SPACE,
@@ -47,13 +57,15 @@ CHECKS = {
                 text="Every definition of the generated family (signature shapes with <=3 positional, <=2 keyword-only parameters and "
                      "**kwargs, total <=3 quick / <=4 thorough; annotations all / none / alternating; a docstring per style that "
                      "documents every subset of the parameters in signature or reversed order, optionally stating defaults that "
-                     "conflict with the signature; as function, self method, cls method and class + __init__) is parsed by "
-                     "doctrans and compared with inspect.signature of the exec'ed definition. The partially documented ones are "
+                     "conflict with the signature; as function, self method, cls method, class + __init__ - also with a nested helper "
+                     "class that has its own __init__, and inside a module searched by class name - and as live objects imported from "
+                     "a module file) is parsed by doctrans and compared with inspect.signature of the exec'ed definition. The partially documented ones are "
                      "re-parsed in fresh interpreters under further PYTHONHASHSEED values and must give the same order.",
-                note="Trusted: CPython exec / inspect. Bounded by the generator (names a,b,c,k1,k2,kwargs; fixed annotation and default "
-                     "values per name)."),
+                note="Trusted: CPython exec / inspect / import system. Bounded by the generator (names s,b,e,z1,k2,kwargs; fixed "
+                     "annotation and default values per name)."),
     "C08": rt("5/C08", "emit, then (parse, emit) repeatedly for each of the 7 kinds", SPACE,
-              " Obligation: the texts of pass 2 and pass 3 (thorough: up to pass 5) are byte-identical."),
+              " Obligation: the texts of pass 2 and pass 3 (thorough: up to pass 5) are byte-identical; plus the cross-kind part: "
+              "emit_K2(parse_K1(emit_K1(ir))) must be a fixed point of emit_K2 . parse_K2 after one pass, for every ordered pair of kinds."),
     "C09": dict(level="model_checking", engine="E3", design="5/C09",
                 technique="TLC explicit-state model of sync (TLA+) with every model transition replayed against the implementation, plus bounded-exhaustive product enumeration",
                 text="models/SyncProtocol.tla specifies sync over 3 files x 5 abstract contents (written from the property text). TLC "
@@ -62,13 +74,18 @@ CHECKS = {
                      "ground_truth: hand-written templates concretise the pre-state, an ast-based extractor that never calls doctrans "
                      "abstracts the result, which must equal the model's successor (state, report, accepted/rejected). In addition the "
                      "product truth kind x target subset x 6 pre-states per target x function/method x interface version x API/CLI "
-                     "and invocations with a second file of the truth's kind are enumerated exhaustively.",
+                     "and invocations with a second file of the truth's kind, with one kind only and several files, with a target of "
+                     "another kind inside the truth's file, and with six textual surroundings of the target (unterminated / "
+                     "indentation-only last line, the name as a string or aliased import before the definition, a column-aligned "
+                     "module docstring) are enumerated exhaustively.",
                 note="Trusted: TLC, the gamma templates and the alpha extractor (mc/project.py). The model abstracts file contents to "
                      "{Missing, Empty, NoDef, version 1, version 2}; interfaces are the 6 versions of mc/project.py."),
     "C10": dict(level="model_checking", engine="E2", design="5/C10",
                 technique="explicit-state BFS over the byte-level project graph on the implementation (states = file bytes, events = sync / edit-truth)",
-                text="From each of 216 concrete start states (every combination of missing / empty / no definition / version 1 / "
-                     "version 2 / helper function + version 1 per file) all 9 sync events and 6 edit events are applied with the real "
+                text="From each of 342 concrete start states (216: every combination of missing / empty / no definition / version 1 / "
+                     "version 2 / helper function + version 1 per file; 14 with function and argparse function in one file; 20 with a "
+                     "method target; 72 with textual surroundings; 20 where a second file of the truth's kind is shared with another "
+                     "kind) all 9 sync events and 6 edit events are applied with the real "
                      "ground_truth, breadth-first, states being exact byte snapshots, to depth 2 (thorough 4). On every sync "
                      "transition the identical sync is run again and must be a self-loop; the truth file must be byte-identical; the "
                      "returned report and the printed modified/unchanged lines must match the byte changes; a rejected sync must "
@@ -77,21 +94,25 @@ CHECKS = {
                      "number of frontier states left at the cap is reported in the evidence."),
     "C11": dict(level="exploration", engine="E1", design="5/C11",
                 technique="bounded-exhaustive enumeration of target modules around the synchronised definition, compared statement by statement via ast.dump",
-                text="Every target module of the generated family (prefix and suffix of 0..1 items quick / 0..2 thorough from 9 item "
+                text="Every target module of the generated family (prefix and suffix of 0..1 items quick / 0..2 thorough from 13 item "
                      "templates incl. same-named methods, nested same-named classes, positional-only / *args functions, decorated and "
-                     "async functions, walrus / try blocks; definition absent / stale / agreeing; with / without trailing newline; "
-                     "three target kinds; method targets with sibling members) is synchronised with the real ground_truth and every "
+                     "async functions, walrus / try blocks, __all__ / forward-reference strings, a triple-quoted constant with blank "
+                     "lines, a re-binding of the target's name; definition absent / stale / agreeing; last line terminated / "
+                     "unterminated / indentation only; module docstrings; three target kinds; a file that is the target of two kinds; "
+                     "a nested class target with a top-level namesake; method targets with sibling members) is synchronised with the real ground_truth and every "
                      "statement other than the named definition must have an identical ast.dump, in order; the file must parse; at "
                      "most one definition of the name may exist; extra body statements must survive.",
                 note="Trusted: CPython ast. The truth is a hand-written definition of another kind."),
     "C12": dict(level="exploration", engine="E5", design="5/C12",
                 technique="configuration sweep over hash seeds chosen to cover all k! set-iteration orders, plus exhaustive call-sequence enumeration in forked pristine processes",
-                text="(a) a battery of ~40 conversions (partially documented functions with 2..4 undocumented parameters, class + "
+                text="(a) a battery of ~80 conversions (partially documented functions with 2..4 undocumented parameters, class + "
                      "__init__ merges, every emitter and parser, gen) runs in one fresh interpreter per PYTHONHASHSEED; seeds are "
                      "added until every permutation of the relevant name-set iteration order has been witnessed (k<=3 quick, k<=4 "
                      "thorough; >=64 / >=256 seeds) plus random seeds; all digests must equal seed 0's. (b) every sequence with "
-                     "repetition over 9 conversions up to length 3 (thorough 4) runs in a child forked from a pristine post-import "
-                     "process and each call's output must equal its solo output.",
+                     "repetition over 18 conversions up to length 2 (thorough 3), of length 3 (4) over the 7 core conversions, and "
+                     "every ordered pair of the 24 twin-family conversions (two interfaces sharing every name and type name, each as "
+                     "parse and emit input in six kinds) runs in a child forked from a pristine post-import process and each "
+                     "call's output must equal its solo output.",
                 note="The 2^32 seeds are covered through the iteration orders they induce (the only channel by which the seed can "
                      "reach doctrans); call histories are depth-bounded because process state cannot be canonicalised soundly."),
     "C13": dict(level="model_checking", engine="E2", design="5/C13",
@@ -100,7 +121,10 @@ CHECKS = {
                      "of a function, a method, classes and an argparse function) the state graph of the shared object under "
                      "all emit / parse calls is explored breadth-first to closure; every transition runs the real call on a "
                      "deep copy of the state and its output must equal that of the same call on a fresh initial object. "
-                     "Closure makes the verdict hold for call sequences of any length, not only the <=4 the property asks for.",
+                     "Closure makes the verdict hold for call sequences of any length, not only the <=4 the property asks for. Because "
+                     "copying hides aliasing with state inside the library, every call sequence of length 2 (thorough 3) over the 25 "
+                     "operations plus 5 foreign calls is also run on one uncopied object in a forked child and compared with the solo "
+                     "outputs; and for sync the bytes one target ends up with must not depend on which other targets are in the run.",
                 note="Trusted: copy.deepcopy, the canonical serialisation (parameter dicts, return entry, body statements via "
                      "ast.dump, ancestry attributes). No separate model: transitions are implementation executions."),
     "C14": dict(level="exploration", engine="E1", design="5/C14",
@@ -113,17 +137,19 @@ CHECKS = {
                 note="Trusted: CPython ast; the independent resolver of mc/props/c15.py."),
     "C15": dict(level="exploration", engine="E1", design="5/C15",
                 technique="bounded-exhaustive enumeration of modules x dotted paths against an independent resolver (node identity)",
-                text="Every module built from an ordered selection of <=3 (thorough <=4) distinct items out of 8 templates whose simple "
-                     "names collide across scopes, and every one of the 1884 paths of length <=3 over the 12-name pool, is resolved by "
+                text="Every module built from an ordered selection of <=3 (thorough <=4) distinct items out of 11 templates whose simple "
+                     "names collide across scopes (incl. locals and nested defs inside a coroutine, a method and a function), and "
+                     "every one of the 3615 paths of length <=3 over the 15-name pool, is resolved by "
                      "find_in_ast on the tree returned by ast_parse and compared by node identity with an independent resolver; for "
                      "every existing path RewriteAtQuery replaces a marker node and the result is compared with an independent "
                      "replacement of exactly that node.",
                 note="Trusted: CPython ast. Bounded by the item templates (nesting depth 3, functions before and after classes)."),
     "C16": dict(level="exploration", engine="E1", design="5/C16",
                 technique="bounded-exhaustive enumeration of function bodies x interfaces x routes, statement lists compared via ast.dump",
-                text="Every body (all sequences of <=2 quick / <=3 thorough distinct statements from 7 templates x 4 final statements) "
-                     "on each of 5 interfaces is carried through function->function, method->method, argparse->argparse and "
-                     "function->class __call__ with the real parse / emit functions; the non-docstring statements must be identical "
+                text="Every body (all sequences of <=2 quick / <=3 thorough distinct statements from 9 templates x 4 final statements) "
+                     "on each of 6 interfaces is carried through function->function, method->method, argparse->argparse (extra "
+                     "statements after / between the add_argument calls), function->class __call__ and class __call__->method with "
+                     "the real parse / emit functions; the non-docstring statements must be identical "
                      "in order and multiplicity; for __call__ the reference is an independent scope-aware rewriter of parameter "
                      "references.",
                 note="Trusted: CPython ast / unparse."),
@@ -155,7 +181,7 @@ CHECKS = {
                 note="Trusted: CPython import system, exec, inspect, argparse."),
     "C20": dict(level="fault_enumeration", engine="E4", design="5/C20",
                 technique="exhaustive fault / crash-point injection at every write-path open (before open, after open, mid-write) and every conversion / rendering step, plus exhaustive argv-space enumeration",
-                text="(a) 405 argv vectors (option presence / validity x file existence for sync, sync_properties, gen) go through the "
+                text="(a) ~590 argv vectors (option presence / validity x file existence for sync, sync_properties, gen) go through the "
                      "real entry point and are judged by an independent validator: rejected => usage error and unchanged directory "
                      "snapshot, accepted => no exception. (b) for each operation (sync over 48 project states quick / 72 thorough, "
                      "sync_properties, gen) a recording run lists the write-path opens and the conversion / rendering steps; then one "
@@ -204,13 +230,13 @@ def main():
         "engines": [
             {"name": "E1", "path": "mc/core.py", "kind_free_text": E1,
              "serves_properties": [p for p in ALL if CHECKS.get(p, {}).get("engine") == "E1"]},
-            {"name": "E2", "path": "mc/graph.py", "kind_free_text": "explicit-state BFS to closure over the real transition functions (conversion / project-file / shared-object graphs)",
+            {"name": "E2", "path": "mc/props/c05.py, mc/props/c10.py, mc/props/c13.py, mc/props/c12.py (histories)", "kind_free_text": "explicit-state BFS to closure over the real transition functions (conversion / project-file / shared-object graphs)",
              "serves_properties": [p for p in ALL if CHECKS.get(p, {}).get("engine") == "E2"]},
             {"name": "E3", "path": "models/SyncProtocol.tla + mc/tlc_replay.py", "kind_free_text": "TLC explicit-state model of sync; every model transition replayed against the implementation",
              "serves_properties": [p for p in ALL if CHECKS.get(p, {}).get("engine") == "E3"]},
             {"name": "E4", "path": "mc/faults.py", "kind_free_text": "exhaustive fault / crash-point enumeration over the write path (builtins.open wrapper)",
              "serves_properties": [p for p in ALL if CHECKS.get(p, {}).get("engine") == "E4"]},
-            {"name": "E5", "path": "mc/sweeps.py", "kind_free_text": "configuration sweep in fresh interpreters (hash seeds covering all k! set orders, DOCTRANS_LINE_LENGTH range)",
+            {"name": "E5", "path": "mc/props/c12.py + mc/c12_battery.py, mc/props/c18.py + mc/c18_worker.py, mc/props/c07.py (seed sweep)", "kind_free_text": "configuration sweep in fresh interpreters (hash seeds covering all k! set orders, DOCTRANS_LINE_LENGTH range)",
              "serves_properties": [p for p in ALL if CHECKS.get(p, {}).get("engine") == "E5"]},
         ],
         "checks": checks,
